@@ -459,3 +459,136 @@ def selection_eval(prog):
     except PyRaise as pr:
         out["raises"] = "raises %s (%s)" % (pr.name, pr.msg)
     return out
+
+
+def check_schema_eval(prog):
+    """check_schema: the candidate is validated by a fresh validator of the *same class* over that class's own META_SCHEMA, with no
+    format checker, resolver or types of its own; the first error comes back as SchemaError.create_from(error); nothing else happens.
+    (C04, C11, C12, C20.)"""
+    out = {}
+    try:
+        # both the metaschema and the candidate name, as their $schema, *another* registered class U that accepts everything:
+        # check_schema is about the class it is called on, whatever either document says about itself
+        meta0 = {"id": "http://m/meta#", "$schema": "http://m/u#", "k1": 7, "k0": 3}
+        ev, V, VE, log, made, table, id_of = _world(prog, id_key="id", meta_schema=meta0, version="vee")
+        g = lambda o, n: ev.obj_getattr(o, n)
+        ca = lambda c, n: ev.expr(__import__("ast").parse("C.%s" % n, mode="eval").body, {"C": c}, None)
+        ev.call_func(prog.func("validators.create"), [], {"meta_schema": {"id": "http://m/u#"}, "validators": {"k1": table["k0"], "k0": table["k0"]},
+                                                           "id_of": id_of, "version": "you"})
+        cand = {"anything": Tok("candidate-member"), "$schema": "http://m/u#"}
+        meta = ca(V, "META_SCHEMA")
+
+        def attempt(fn, c=cand):
+            del log[:]
+            made.clear()
+            try:
+                res = fn(c)
+            except PyRaise as pr:
+                return pr
+            return ("returned", res)
+        out["raises-schema-error"] = out["own-class"] = out["bare-validator"] = out["classmethod"] = None
+
+        def judge(pr, cls_, first_kw, value, label):
+            if not isinstance(pr, PyRaise):
+                out["raises-schema-error"] = "%s: returns %r although the metaschema validation yields an error" % (label, pr[1])
+                return
+            if pr.name != "SchemaError" or not isinstance(pr.obj, Obj):
+                out["raises-schema-error"] = "%s: raises %s, expected SchemaError built from the first error" % (label, pr.name)
+                return
+            src = made.get(first_kw, [None])[0]
+            if src is None:
+                out["raises-schema-error"] = "%s: the error raised does not stem from the keyword %r of the metaschema" % (label, first_kw)
+                return
+            e = pr.obj
+            for fld in ("message", "validator", "validator_value", "instance", "schema", "cause", "context"):
+                a, b = g(e, fld), g(src, fld)
+                if a is not b and a != b:
+                    out["raises-schema-error"] = "%s: SchemaError.%s is %r, the first metaschema error has %r (create_from copies every field)" % (label, fld, a, b)
+            if list(g(e, "path")) != list(g(src, "path")) or list(g(e, "schema_path")) != list(g(src, "schema_path")):
+                out["raises-schema-error"] = "%s: SchemaError path/schema_path differ from the first metaschema error's" % label
+            if g(e, "validator") != first_kw or g(e, "validator_value") != value:
+                out["raises-schema-error"] = "%s: the error raised is for %r=%r, expected the first failing keyword %r=%r" % (
+                    label, g(e, "validator"), g(e, "validator_value"), first_kw, value)
+            callsk = [c for c in log if c[0] == "call"]
+            if not callsk or callsk[0][1] != first_kw or callsk[0][3] is not c_in[0]:
+                out["own-class"] = "%s: the candidate is not what the metaschema's keyword functions are applied to" % label
+                return
+            vobj, used_schema = callsk[0][5], callsk[0][4]
+            m = ca(cls_, "META_SCHEMA")
+            if used_schema is not m and used_schema != m:
+                out["own-class"] = "%s: the candidate is validated against %r, not the class's own META_SCHEMA" % (label, used_schema)
+            if not isinstance(vobj, Obj) or vobj.klass is not cls_:
+                out["own-class"] = "%s: the validating object is not an instance of the class check_schema was called on" % label
+                return
+            if g(vobj, "format_checker") is not None:
+                out["bare-validator"] = "%s: the metaschema validation runs with a format checker (check_schema would reject more than the metaschema does)" % label
+            if g(vobj, "TYPE_CHECKER") is not ca(cls_, "TYPE_CHECKER"):
+                out["bare-validator"] = "%s: the metaschema validation runs with type checks other than the class's" % label
+            rs = g(vobj, "resolver")
+            if not isinstance(rs, Obj) or g(rs, "referrer") is not g(vobj, "schema"):
+                out["bare-validator"] = "%s: the metaschema validation runs with a resolver that is not the default one for the metaschema" % label
+        c_in = [cand]
+        judge(attempt(ca(V, "check_schema")), V, "k1", 7, "Validator.check_schema(candidate)")
+        out["candidate-untouched"] = None
+        m0 = {"id": "http://m/meta#", "$schema": "http://m/u#", "k1": 7, "k0": 3}
+        if list(cand) != ["anything", "$schema"] or not isinstance(cand["anything"], Tok) or meta0 != m0 or ca(V, "META_SCHEMA") != m0:
+            out["candidate-untouched"] = "check_schema writes to the candidate or to the metaschema"
+        # on an instance: still the class's metaschema, not the instance's schema
+        inst = V({"k2": 1})
+        try:
+            fn = g(inst, "check_schema")
+            judge(attempt(fn), V, "k1", 7, "validator_instance.check_schema(candidate)")
+        except PyRaise as pr:
+            out["classmethod"] = "check_schema cannot be called on an instance (%s)" % pr.name
+        # a derived class checks with its own table and metaschema
+        extend = prog.func("validators.extend")
+        k0w = table["k2"]
+        W = ev.call_func(extend, [V], {"validators": {"k1": table["k0"], "k0": k0w}})
+        # W: k1 passes, k0 is bound to the function logging as k2 with one error
+        del log[:]
+        made.clear()
+        pr = attempt(ca(W, "check_schema"))
+        if not isinstance(pr, PyRaise) or pr.name != "SchemaError" or not isinstance(pr.obj, Obj) or g(pr.obj, "validator") != "k0" or g(pr.obj, "validator_value") != 3:
+            out["own-class"] = "a class derived with extend() does not check candidates with its own keyword table (got %r)" % (pr,)
+        else:
+            callsk = [c for c in log if c[0] == "call"]
+            if any(not isinstance(c[5], Obj) or c[5].klass is not W for c in callsk):
+                out["own-class"] = "a derived class's check_schema validates with an instance of another class"
+        # no memory between calls: the same call again gives the same answer, and a class whose META_SCHEMA has been replaced
+        # (extend()'s documented recipe) checks against the new one
+        c_in[0] = cand
+        judge(attempt(ca(V, "check_schema")), V, "k1", 7, "Validator.check_schema(candidate), second call")
+        if isinstance(V.vals, dict) and "META_SCHEMA" in V.vals:
+            V.vals["META_SCHEMA"] = {"id": "http://m/meta#", "k0": 3}
+            pr = attempt(ca(V, "check_schema"))
+            if isinstance(pr, PyRaise):
+                out["own-class"] = "after the class's META_SCHEMA was replaced, check_schema still checks against the old one (raises %s)" % pr.name
+            V.vals["META_SCHEMA"] = {"id": "http://m/meta#", "k2": 5, "k0": 3}
+            judge(attempt(ca(V, "check_schema")), V, "k2", 5, "Validator.check_schema(candidate) after META_SCHEMA was replaced")
+            V.vals["META_SCHEMA"] = meta
+        # nothing to complain about: returns None, nothing raised
+        ev2, V2, VE2, log2, made2, table2, _ = _world(prog, id_key="id", meta_schema={"id": "http://m/ok#", "k0": 1, "kn": 2})
+        try:
+            res = ca(V2, "check_schema")(cand)
+            if res is not None:
+                out["raises-schema-error"] = "check_schema returns %r for a candidate its metaschema accepts" % (res,)
+            if [(c[1], c[3] is cand) for c in log2 if c[0] == "call"] != [("k0", True), ("kn", True)]:
+                out["own-class"] = "for an acceptable candidate the metaschema's keywords are not each applied once to the candidate: %r" % ([c[1] for c in log2 if c[0] == "call"],)
+        except PyRaise as pr:
+            out["raises-schema-error"] = "check_schema raises %s for a candidate its metaschema accepts" % pr.name
+        # every kind of candidate reaches the keyword functions unchanged
+        for c in (True, False, 0, "s", None, [1], {}):
+            c_in[0] = c
+            pr = attempt(ca(V, "check_schema"), c)
+            if not isinstance(pr, PyRaise) or pr.name != "SchemaError":
+                out["raises-schema-error"] = "candidate %r: %s" % (c, "raises %s" % pr.name if isinstance(pr, PyRaise) else "no SchemaError")
+                break
+            callsk = [x for x in log if x[0] == "call"]
+            if not callsk or callsk[0][3] is not c:
+                out["own-class"] = "candidate %r does not reach the metaschema's keyword functions as given" % (c,)
+                break
+    except Undecided:
+        return None
+    except PyRaise as pr:
+        out["raises"] = "raises %s (%s)" % (pr.name, pr.msg)
+    return out
